@@ -484,3 +484,42 @@ def r_cctab(repo, tier):
     if n < 32:
         raise AnalysisError("R-CCTAB: only %d rows" % n)
     return out
+
+
+def r_store(repo, tier):
+    out = RuleOut(
+        "R-STORE",
+        "RISC-V semantics: the store instructions of the ISA table (S format: SB/SH/SW/SD) write their memory operand on every "
+        "path -- x0 as base register is an ordinary absolute address, so no guard on the base may skip the store; and loads "
+        "(I format, opcode 0000011) write rd on every path where rd is not x0",
+    )
+    ref = load("riscv_base.json")
+    n = 0
+    for isa, (specmod, asmmod, cpumod) in RV.items():
+        sem = effective_semantics(repo, asmmod, cpumod)
+        for mn, row in sorted(ref[isa].items()):
+            if row["fmt"] != "S":
+                continue
+            f = sem.get("i_" + mn)
+            if f is None:
+                out.undecide(RV[isa][1], "i_" + mn, mn, "no semantics function")
+                continue
+            n += 1
+            ops = None
+            for s in f.node.body:
+                if isinstance(s, ast.Assign) and isinstance(s.targets[0], ast.Tuple) and norm(s.value).endswith(".operands"):
+                    ops = [e.id for e in s.targets[0].elts if isinstance(e, ast.Name)]
+            if not ops:
+                out.undecide(f.file, f.dqual, mn, "operands not unpacked")
+                continue
+            dst = ops[0]
+            cfg = CFG(f.node, may_raise=lambda x: False)
+            stores = {nd.id for nd in cfg.nodes if nd.kind == "stmt" and isinstance(nd.ast, ast.Assign) and any(isinstance(t, ast.Subscript) and norm(t.value) == "fmap" and norm(t.slice) == dst for t in nd.ast.targets)}
+            p = cfg.some_path(cfg.entry, {cfg.exit.id}, avoid=stores)
+            out.inst("%s::%s" % (f.key, isa), {"isa": isa, "mnemonic": mn, "memory_operand": dst, "stores": len(stores), "unconditional": p is None})
+            if p is not None:
+                out.report(f.file, f.dqual, "%s may not store (%s)" % (mn, isa), f.node.lineno, "%s can return without writing its memory operand (path %s): the manual defines no case in which a store is dropped (base register x0 is address 0)" % (mn, cfg.describe_path(p)))
+    out.stats["stores"] = n
+    if n < 7:
+        raise AnalysisError("R-STORE: only %d store semantics found (7 expected)" % n)
+    return out
